@@ -327,6 +327,10 @@ func asCongruence(f *Term) (x *Term, m *big.Int, ok bool) {
 	if a.sort != SInt {
 		return nil, nil, false
 	}
+	// a mod m == b mod m  is  a ≡ b (mod m)
+	if a.op == OMod && b.op == OMod && a.k.Cmp(b.k) == 0 {
+		return Sub(a.args[0], b.args[0]), a.k, true
+	}
 	if b.op == OMod && a.op == OConst && a.k.Sign() == 0 {
 		a, b = b, a
 	}
@@ -442,12 +446,7 @@ func AlgProve(facts []*Term, goal *Term) (bool, string) {
 				continue
 			}
 			xv := mo.vars[0]
-			if os.Getenv("GOVC_DEBUG") != "" {
-				fmt.Fprintf(os.Stderr, "alg:   cand %d %s inGoal=%v\n", xv, pc.atoms[xv].str(4), inGoal[xv])
-			}
-			if !inGoal[xv] {
-				continue
-			}
+
 			// must not occur in any other monomial of e
 			cnt := 0
 			for _, m2 := range e.mono {
@@ -481,6 +480,10 @@ func AlgProve(facts []*Term, goal *Term) (bool, string) {
 			if best < 0 || (unit && !bestUnit) || (unit == bestUnit && xv > best) {
 				best, bestUnit, bestInv = xv, unit, inv
 			}
+		}
+		// a fact is used in one direction only: to eliminate the newest atom it mentions
+		if best >= 0 && !inGoal[best] {
+			best = -1
 		}
 		if os.Getenv("GOVC_DEBUG") != "" {
 			fmt.Fprintf(os.Stderr, "alg: fact %s -> best=%d\n", flat[i].str(3), best)
